@@ -34,6 +34,8 @@ func (v *Violation) Class() string { return v.Property + "/" + v.Invariant + "/"
 
 // Result is what one simulated run reports.
 type Result struct {
+	// EnumPoints: number of fault points the run passed (fault-point enumeration, VERIF_ENUM)
+	EnumPoints int
 	Violation   *Violation
 	Known       []Violation // violations matching a listed known finding (run continued or stopped)
 	Stats       map[string]int64
@@ -56,6 +58,9 @@ type Env struct {
 }
 
 func (e *Env) On(p string) bool { return e.Props[p] }
+
+// EnumNone is the first decision of a fault-point-enumeration run that forces no fault.
+const EnumNone = 1<<16 - 1
 
 type RunFunc func(env *Env) *Result
 
@@ -304,17 +309,12 @@ func Main(engine string, run RunFunc) (exit int) {
 		propList = append(propList, p)
 	}
 	sort.Strings(propList)
-	for i := 0; i < count; i++ {
-		if time.Since(start) > wall {
-			break
-		}
-		seed := base*1_000_000 + first + uint64(i)*stride
-		rep.LastSeed = seed
-		if out != "" {
-			// a run that kills the process (runtime fatal error) leaves its seed behind
-			_ = os.WriteFile(out+".progress", []byte(strconv.FormatUint(seed, 10)), 0o644)
-		}
-		ch := choice.NewSeeded(seed)
+	enum := os.Getenv("VERIF_ENUM") != ""
+	stop := false
+	// oneRun executes one seeded run (ch decides everything), accounts for it and, on a new
+	// violation class, minimises it and writes the replay file.  Returns the number of fault
+	// points the run passed and a process exit code (0 = go on).
+	oneRun := func(seed uint64, ch *choice.Chooser, i int, tag string) (int, int) {
 		sample := len(rep.Samples) < 2 && i%7 == 3
 		res, _ := safeRun(run, &Env{Ch: ch, Props: props, Tier: tier, Variant: rep.Variant, Verbose: sample, Known: known})
 		rep.Runs++
@@ -347,12 +347,12 @@ func Main(engine string, run RunFunc) (exit int) {
 			}
 		}
 		if res.Violation == nil {
-			continue
+			return res.EnumPoints, 0
 		}
 		v := *res.Violation
 		if seenClass[v.Class()] {
 			rep.Stats["violations-duplicate-class"]++
-			continue
+			return res.EnumPoints, 0
 		}
 		seenClass[v.Class()] = true
 		if v.NoShrink {
@@ -360,13 +360,14 @@ func Main(engine string, run RunFunc) (exit int) {
 				Violation: v, Draws: ch.Trace, Trace: res.Log, Shrunk: "not shrunk: only observable once per process", Known: knownList}
 			path := ""
 			if replayDir != "" {
-				path = filepath.Join(replayDir, fmt.Sprintf("%s-%s-%d.json", v.Property, engine, seed))
+				path = filepath.Join(replayDir, fmt.Sprintf("%s-%s-%d%s.json", v.Property, engine, seed, tag))
 				b, _ := json.MarshalIndent(rf, "", " ")
 				_ = os.MkdirAll(replayDir, 0o755)
 				_ = os.WriteFile(path, b, 0o644)
 			}
 			rep.Found = append(rep.Found, Found{Violation: v, Seed: seed, Replay: path})
-			break // later runs of this process cannot report the same race again
+			stop = true // later runs of this process cannot report the same race again
+			return res.EnumPoints, 0
 		}
 		// shrink
 		ks := ch.Ks()
@@ -387,14 +388,14 @@ func Main(engine string, run RunFunc) (exit int) {
 			note += "; shrunk sequence did not reproduce, kept original"
 		}
 		if r2.Violation == nil {
-			rep.Error = fmt.Sprintf("seed %d: violation %s did not reproduce in-process (forgotten nondeterminism?)", seed, v.Class())
-			return 2
+			rep.Error = fmt.Sprintf("seed %d%s: violation %s did not reproduce in-process (forgotten nondeterminism?)", seed, tag, v.Class())
+			return 0, 2
 		}
 		rf := ReplayFile{Engine: engine, Variant: rep.Variant, Property: v.Property, Props: propList, Tier: tier, Seed: seed,
 			Violation: *r2.Violation, Draws: c2.Trace, Trace: r2.Log, Shrunk: note, Known: knownList}
 		path := ""
 		if replayDir != "" {
-			path = filepath.Join(replayDir, fmt.Sprintf("%s-%s-%d.json", v.Property, engine, seed))
+			path = filepath.Join(replayDir, fmt.Sprintf("%s-%s-%d%s.json", v.Property, engine, seed, tag))
 			b, _ := json.MarshalIndent(rf, "", " ")
 			_ = os.MkdirAll(replayDir, 0o755)
 			_ = os.WriteFile(path, b, 0o644)
@@ -407,8 +408,43 @@ func Main(engine string, run RunFunc) (exit int) {
 			}
 		}
 		if nv >= maxFound {
+			stop = true
+		}
+		return res.EnumPoints, 0
+	}
+	for i := 0; i < count && !stop; i++ {
+		if time.Since(start) > wall {
 			break
 		}
+		seed := base*1_000_000 + first + uint64(i)*stride
+		rep.LastSeed = seed
+		if out != "" {
+			// a run that kills the process (runtime fatal error) leaves its seed behind
+			_ = os.WriteFile(out+".progress", []byte(strconv.FormatUint(seed, 10)), 0o644)
+		}
+		if !enum {
+			if _, code := oneRun(seed, choice.NewSeeded(seed), i, ""); code != 0 {
+				return code
+			}
+			continue
+		}
+		// fault-point enumeration: the base history first (fault point "none"), then the same
+		// seeded history once per fault point it passed, each forced by the first decision
+		n, code := oneRun(seed, choice.NewSeededPrefix(seed, []int{EnumNone}), i, "-base")
+		if code != 0 {
+			return code
+		}
+		rep.Stats["enum.histories"]++
+		rep.Stats["enum.fault-points"] += int64(n)
+		for j := 0; j < n && !stop; j++ {
+			if _, code := oneRun(seed, choice.NewSeededPrefix(seed, []int{j}), i, fmt.Sprintf("-p%d", j)); code != 0 {
+				return code
+			}
+		}
+		if !stop {
+			rep.Stats["enum.histories-fully-enumerated"]++
+		}
+		// (VERIF_COUNT counts histories in this mode)
 	}
 	rep.WallS = time.Since(start).Seconds()
 	if out != "" {
